@@ -268,6 +268,9 @@ def reference(spec: dict, smp_in: dict):
         else:
             if kw.get("random_crop_sampler_type", "uniform") == "uniform" and kw.get("random_crop_sampler_gaussian_sigma"):
                 return {"__raises__": True}
+            sg = kw.get("random_crop_sampler_gaussian_sigma")
+            if isinstance(sg, list) and len(sg) not in (1, len(eff)):
+                return None                 # one sigma per entry of the resolved crop shape is required: not pinned down here
             corner = random_corner(spec, smp_in, img.shape, eff)
             if corner is not None:
                 out[key] = fwd(window(img, corner, eff), dim=dim)
@@ -453,8 +456,6 @@ def gen_histories(ctx: Ctx, deep: bool):
             if not kw["image_space_center_crop"]:
                 kw["random_crop_sampler_type"] = rng.choice(["uniform", "gaussian"])
                 kw["random_crop_sampler_use_seed"] = rng.random() < 0.7
-                if kw["random_crop_sampler_type"] == "gaussian" and rng.random() < 0.5:
-                    kw["random_crop_sampler_gaussian_sigma"] = [rng.choice([0.5, 1.0, 2.5]) for _ in crop]
             mixed = [rng.choice([4, 5]) for _ in range(nsmp)]
             if three:
                 ranks = [5] * nsmp
@@ -462,6 +463,10 @@ def gen_histories(ctx: Ctx, deep: bool):
                 ranks = [4] * nsmp if rng.random() < 0.85 else mixed     # 2-element string on 5-D = the pending finding: rare
             else:
                 ranks = mixed
+            if (not kw["image_space_center_crop"] and kw["random_crop_sampler_type"] == "gaussian" and rng.random() < 0.5
+                    and form != "key" and len(set(ranks)) == 1 and (ranks[0] == 4 or form in ("str_tuple", "str_list") or three)):
+                # one sigma per entry of the RESOLVED crop shape (2-element list/tuple crops grow a slice entry on 5-D data)
+                kw["random_crop_sampler_gaussian_sigma"] = [rng.choice([0.5, 1.0, 2.5]) for _ in crop]
             samples = []
             for r in ranks:
                 hmin = max([c for c in crop[-2:-1]] + [2])
